@@ -1,8 +1,10 @@
 #!/bin/bash
 # Re-run every seeded change (seeded/<name>/patch.diff) against the quick check of the property it breaks and record
 # the outcome in seeded/<name>/meta.json ("last_rerun").  Development aid.
-cd /verif
+cd "$(dirname "$0")/.."
+i=0
 for d in seeded/*/; do
+  i=$((i+1)); [ -n "${SHARD:-}" ] && [ $((i % ${NSHARD:-1})) -ne "$SHARD" ] && continue
   n=$(basename $d); id=$(/venv/bin/python -c "import json;print(json.load(open('$d/meta.json'))['breaks_property'])")
   out=$(LINES_MAX=400 selftest/run_mutant.sh $d/patch.diff $id quick 2>&1)
   nv=$(echo "$out" | grep -c "^VIOLATION"); ex=$(echo "$out" | grep "^exit=" | cut -d= -f2)
